@@ -15,6 +15,7 @@ var Registry = map[string]func(p *load.Prog, r *oblig.Run){
 	"C07": C07,
 	"C08": C08,
 	"C09": C09,
+	"C13": C13,
 	"C14": C14,
 	"C15": C15,
 }
